@@ -7,5 +7,7 @@ import "verif/checks/c05/c05arrays"
 // structs generated at check time by the working-tree tars2go (run.sh)
 func init() {
 	extraTypes["c05arrays::Arrays"] = func() tarsStruct { return new(c05arrays.Arrays) }
+	extraTypes["c05arrays::Conts"] = func() tarsStruct { return new(c05arrays.Conts) }
+	extraTypes["c05arrays::MapElem"] = func() tarsStruct { return new(c05arrays.MapElem) }
 	extraTypes["c05arrays::Elem"] = func() tarsStruct { return new(c05arrays.Elem) }
 }
